@@ -4,7 +4,7 @@
 cd /verif
 props="${@:-$(jq -r '.checks[].property_id' MANIFEST.json)}"
 for p in $props; do
-  tier=quick; case $p in C09|C04|C05|C06) tier=thorough;; esac
+  tier=quick; case $p in C09|C04|C05|C06|C03) tier=thorough;; esac
   rm -f /tmp/propose_$p.json
   ./check $p $tier -write-baseline -propose-findings /tmp/propose_$p.json | grep -v '^KNOWN-FINDING' | tail -2
   python3 - "$p" <<'PY'
